@@ -13,6 +13,7 @@ import (
 	"github.com/z7zmey/php-parser/verifmc/core"
 	"github.com/z7zmey/php-parser/verifmc/corpus"
 	"github.com/z7zmey/php-parser/verifmc/drive"
+	"github.com/z7zmey/php-parser/verifmc/synm"
 )
 
 // C17 — formatting preserves the program, is canonical and idempotent.
@@ -244,6 +245,28 @@ func c17Run(c *core.Ctx) {
 			if c.Next() {
 				c17One(c, mkCase(src, f.V, why))
 			}
+		})
+	}
+	// every flat operator expression the precedence model accepts (<= 3 operators; thorough 4): prefix and binary
+	// operators next to each other are where the rebuilt tokens can fuse (`- --$a ** 2` must not become `---$a ** 2`)
+	maxOps := 3
+	if c.Thorough() {
+		maxOps = 4
+	}
+	for _, fam5 := range []bool{false, true} {
+		v := drive.V74
+		if fam5 {
+			v = drive.V56
+		}
+		c03Exprs(c, fam5, maxOps, func(toks []synm.Tok, txt []string) {
+			if !c.Next() {
+				return
+			}
+			if _, ok := synm.Parse(toks); !ok {
+				return
+			}
+			c17One(c, mkCase("<?php "+strings.Join(txt, " ")+";", v, "flat operator expression"))
+			c17One(c, mkCase("<?php "+strings.Join(txt, "")+";", v, "flat operator expression, no blanks"))
 		})
 	}
 	for _, src := range corpus.ChainPrograms(3) {
